@@ -257,11 +257,6 @@ def judge_traces(ctx, variant, enforce_new, traces, timeout=3000, overwrite=True
     import tempfile
     if not traces:
         return []
-    if _canary:
-        from harness import canary
-        from checks import canaries
-        canary.probe(ctx, 'Trace_Loader', traces, canaries.loader_trace,
-                     lambda trs: {i for i, _, _ in judge_traces(canary.NullCtx(), variant, enforce_new, trs, timeout, overwrite, _canary=False)}, k=8)
     fd, path = tempfile.mkstemp(prefix='verif_traces_', suffix='.json')
     try:
         with os.fdopen(fd, 'w') as f:
@@ -293,6 +288,11 @@ def judge_traces(ctx, variant, enforce_new, traces, timeout=3000, overwrite=True
             bad[cid] = (whys[-1], int(ls[-1]))
     if nwarn:
         ctx.note('MODEL-DRIFT (not a listed property): in %d states of %s traces the deprecation warnings of a load differ from the specified ones' % (nwarn, variant))
+    if _canary:
+        from harness import canary
+        from checks import canaries
+        canary.probe(ctx, 'Trace_Loader', [t for i, t in enumerate(traces, 1) if i not in bad], canaries.loader_trace,
+                     lambda trs: {i for i, _, _ in judge_traces(canary.NullCtx(), variant, enforce_new, trs, timeout, overwrite, _canary=False)}, k=8)
     return [(cid - 1, w, l) for cid, (w, l) in sorted(bad.items())]
 
 
